@@ -1281,7 +1281,16 @@ impl Check for C15 {
             if kind_can_fail(kind) {
                 for k in 0..n as u8 {
                     f.push((Fault::Source(k), 1));
+                    if matches!(sink, 8 | 10) {
+                        // the other initial contents of the store removed from (see `init`)
+                        f.push((Fault::Source(k), 4));
+                        f.push((Fault::Source(k), 7));
+                    }
                 }
+            }
+            if matches!(sink, 8 | 10) {
+                f.push((Fault::None, 3));
+                f.push((Fault::None, 6));
             }
             if sink_can_fail(sink) {
                 for k in 0..n as u8 {
@@ -1386,14 +1395,27 @@ impl Check for C15 {
                     }
                 }
             }
-            8 | 10 => {
-                for (i, (_, q)) in full_image.iter().enumerate() {
-                    if i % 3 != 2 && !init.contains(q) {
-                        init.push(q.clone());
+            8 | 10 => match (case.aux / 3) % 3 {
+                // two thirds of the items plus an unrelated statement (the store never runs empty)
+                0 => {
+                    for (i, (_, q)) in full_image.iter().enumerate() {
+                        if i % 3 != 2 && !init.contains(q) {
+                            init.push(q.clone());
+                        }
+                    }
+                    init.push(MQ::new(MT::iri("http://x/other"), MT::iri("http://x/p0"), MT::string("unrelated"), None));
+                }
+                // exactly the first half of the items: the store runs empty in the middle of the stream
+                1 => {
+                    for (_, q) in full_image.iter().take(full_image.len().div_ceil(2)) {
+                        if !init.contains(q) {
+                            init.push(q.clone());
+                        }
                     }
                 }
-                init.push(MQ::new(MT::iri("http://x/other"), MT::iri("http://x/p0"), MT::string("unrelated"), None));
-            }
+                // an empty store
+                _ => {}
+            },
             9 | 11 => {
                 for (_, q) in full_image.iter().skip(1).step_by(2) {
                     if !init.contains(q) {
